@@ -78,6 +78,16 @@ PROPS = {
         assumptions=['completion requests carry a state in {resolved, rejected, canceled} (front-end validation)'],
         trusted_base=['coroutine control flow and kernel tick are modelled by hand (Model/Coroutines, Model/System) and tied by sysdiff'],
     ),
+    'C14': dict(
+        modules=['Resonate.Properties.C14'],
+        tie_filter=r'(promise|schedule)(Search|Insert|Update|Delete|Select)|shape|wiring|uniques',
+        harness=[with_monitor(storediff('storediff-search', ['SearchPromises', 'SearchPromises', 'CreatePromise', 'UpdatePromise', 'SearchSchedules', 'CreateSchedule', 'DeleteSchedule', 'CreatePromiseAndTask'], (40, 40), (1000, 60), (300, 60)), 'C14,C01'),
+                 sysdiff('sysdiff-search', ['SearchPromises', 'SearchSchedules', 'CreatePromise', 'CompletePromise', 'CreateSchedule', 'DeleteSchedule'], (20, 120), (400, 150), 'C01', ['-fail', '10'], (150, 150))],
+        rule='storediff over search/create/complete/delete commands (populations grow to dozens of rows, prefix/suffix/infix patterns, every state subset, tag subsets, page sizes 1..100, cursors), every search that heads a batch is ALSO checked against an independent Go oracle of the property (matching set, newest first, first limit) evaluated on the previous implementation dump; sysdiff covers the coroutine (cursor construction, lazy time-out and re-search)',
+        assumptions=['cursor MAC (jwt) is not modelled; the signed-cursor reject path is exercised by frontdiff/stack tests only',
+                     'tag keys are plain JSON-path labels on sqlite (finding F14 is listed as known)'],
+        trusted_base=['search coroutines modelled by hand and tied by sysdiff'],
+    ),
     'C15': dict(
         modules=['Resonate.Properties.C15'],
         tie_filter=r'^$',
